@@ -396,6 +396,7 @@ def _arg_calls():
         "Track.add_notes": lambda a: Track().add_notes(a, 2),
         "Track(Piano).add_notes": lambda a: Track(Piano()).add_notes(a, 2),
         "Piano.can_play_notes": lambda a: Piano().can_play_notes(a),
+        "Instrument.set_range": lambda a: Piano().set_range(a),
         "Guitar.notes_in_range": lambda a: Guitar().notes_in_range(a),
         "tuning.find_fingering": lambda a: tun.find_fingering(a),
         "tuning.find_chord_fingering": lambda a: tun.find_chord_fingering(a),
@@ -431,8 +432,20 @@ KIND = {"notes": ["intervals.invert", "chords.determine", "chords.determine/shor
         "chordlist": ["Track.from_chords", "chords.from_shorthand/list"],
         "dynamics": ["Note/dynamics", "Note/dynamics-only", "Note.set_note/dynamics", "NoteContainer.add_note/dynamics"],
         "any": ["MidiFile"],
+        "range": ["Instrument.set_range"],
         "samples": ["fft.analyze_chunks", "fft.find_frequencies", "fft.find_Note"],
         "freqtable": ["fft.find_notes"]}
+
+
+def _deep_same(a, b):
+    """equality that never asks a library object to compare itself with a plain value"""
+    if type(a) is not type(b):
+        return False
+    if isinstance(a, (list, tuple)):
+        return len(a) == len(b) and all(_deep_same(x, y) for x, y in zip(a, b))
+    if isinstance(a, dict):
+        return set(a) == set(b) and all(_deep_same(a[k], b[k]) for k in a)
+    return a == b
 
 
 def check_args(ctx, case):
@@ -444,7 +457,7 @@ def check_args(ctx, case):
         f(arg)
     except Exception as e:  # noqa - rejected input is fine; the argument must still be untouched
         raised = type(e).__name__
-    ctx.check(arg == before, "argument-modified/%s" % name, lambda: "%s(%r) left its argument as %r%s" % (
+    ctx.check(_deep_same(arg, before), "argument-modified/%s" % name, lambda: "%s(%r) left its argument as %r%s" % (
         name, before, arg, " (raised %s)" % raised if raised else ""))
     ctx.note_case(bool(arg), ["args:" + name.split(".")[0], "args:raised" if raised else "args:returned"])
 
@@ -533,11 +546,13 @@ def _factories():
             lambda o: o.__setitem__(0, Composition()) if len(o) else None, lambda o: o.compositions.append(Composition())]),
         "Instrument": (Instrument, lambda: Instrument(), [
             lambda o: o.set_range((Note("C", 2), Note("C", 5))), lambda o: setattr(o, "name", "other"), lambda o: setattr(o, "clef", "tenor"),
-            lambda o: o.can_play_notes(["C-4"])]),
-        "Piano": (Piano, lambda: Piano(), [lambda o: o.set_range((Note("A", 0), Note("C", 8))), lambda o: setattr(o, "name", "Upright")]),
-        "Guitar": (Guitar, lambda: Guitar(), [lambda o: o.set_range((Note("E", 2), Note("E", 6))), lambda o: setattr(o, "tuning", "x")]),
+            lambda o: o.can_play_notes(["C-4"]), lambda o: o.set_range(["D-2", "D-5"]), lambda o: o.set_range(("E-2", "E-5"))]),
+        "Piano": (Piano, lambda: Piano(), [lambda o: o.set_range((Note("A", 0), Note("C", 8))), lambda o: setattr(o, "name", "Upright"),
+                                           lambda o: o.set_range(["D-2", "D-5"]), lambda o: o.set_range(("E-2", "E-5"))]),
+        "Guitar": (Guitar, lambda: Guitar(), [lambda o: o.set_range((Note("E", 2), Note("E", 6))), lambda o: setattr(o, "tuning", "x"),
+                                              lambda o: o.set_range(["D-2", "D-5"])]),
         "MidiInstrument": (MidiInstrument, lambda: MidiInstrument(), [lambda o: setattr(o, "instrument_nr", 40), lambda o: setattr(o, "name", "Violin"),
-                                                                      lambda o: o.set_range((Note("G", 3), Note("C", 8)))]),
+                                                                      lambda o: o.set_range((Note("G", 3), Note("C", 8))), lambda o: o.set_range(["D-2", "D-5"])]),
         "MidiPercussionInstrument": (MidiPercussionInstrument, lambda: MidiPercussionInstrument(), [
             lambda o: o.mapping.__setitem__(35, "Kick"), lambda o: o.mapping.pop(81), lambda o: o.mapping.clear(), lambda o: setattr(o, "name", "Kit"),
             lambda o: o.set_range((Note("C", 2), Note("C", 5)))]),
@@ -691,6 +706,7 @@ def sub_args(ctx, shard, n):
         st.tuples(st.sampled_from(container_calls), nested), st.tuples(st.sampled_from(KIND["notes"]), nested),
         st.tuples(st.sampled_from(KIND["numerals"]), numerals), st.tuples(st.sampled_from(KIND["chordlist"]), chordlist),
         st.tuples(st.sampled_from(KIND["dynamics"]), dyn), st.tuples(st.sampled_from(KIND["any"]), notes),
+        st.tuples(st.sampled_from(KIND["range"]), st.lists(st.sampled_from(["C-2", "A-0", "E-3", "C-5", "G-6", "C-8", "Bb-1"]), min_size=2, max_size=2)),
         st.tuples(st.sampled_from(KIND["samples"]), st.lists(st.integers(-2000, 2000), min_size=64, max_size=200)),
         st.tuples(st.sampled_from(KIND["freqtable"]), st.lists(st.tuples(st.floats(20.0, 5000.0), st.floats(0.0, 9.0)).map(list), min_size=1, max_size=6))).map(list)
     ctx.given("args", check_args, strat, 1200 if ctx.quick else 15000)
